@@ -169,6 +169,7 @@ class StabilizerCompiler(CompilerBase):
                 state.apply_conditioned_gate(
                     q_index(op.target, op.target_type), outcomes, gate="x"
                 )
+                classical_registers[op.c_register] = outcomes[0]
 
             else:
                 outcome = state.apply_measurement(
@@ -178,6 +179,7 @@ class StabilizerCompiler(CompilerBase):
 
                 if outcome == 1:
                     state.apply_sigmax(q_index(op.target, op.target_type))
+                classical_registers[op.c_register] = outcome
 
             # reset the control qubit
             state.reset_qubit(
